@@ -12,7 +12,13 @@ Catalogue == [sizes |-> [c \in SizeClasses |-> SizeCat[c]], modes |-> [c \in Mod
               devs |-> [c \in DevClasses |-> DevOf[c]], names |-> [c \in NameClasses |-> NameLen[c]]]
 ASSUME JsonSerialize(IOEnv.OUT, Catalogue)
 KindSeqWide == <<"reg", "reg", "reg", "reg", "reg", "reg", "dir", "lnk", "hard", "fifo">>
-KindSeqLink == <<"dir", "dir", "reg", "reg", "hard", "hard", "hard">>
+KindSeqLink == <<"dir", "dir", "reg", "fifo", "hard", "hard", "hard">>
+\* link groups of every file type: one node of each linkable kind per round, half of the weight on further names
+KindSeqLinks == <<"dir", "dir", "dir", "reg", "lnk", "chr", "blk", "fifo", "sock", "hard", "hard", "hard", "hard", "hard", "hard", "hard", "hard">>
+KindSeqShapes == <<"dir", "reg", "lnk", "chr", "blk", "fifo", "sock", "hard">>
+\* model-checking mode (every tree of a small configuration, no seed): the link-shape trees -- for every linkable kind a group of
+\* two or three names inside one directory, across two directories, below / above the first name
+EmitLinkShapes == (phase = "done" /\ LinkShape(tree)) => (TreeOK(tree) /\ PrintT(<<"TREE", ToJson(tree)>>))
 \* only the trees on which hard-link detection by inode number alone would go wrong (cross-device sub-universe)
 EmitSensitive == (phase = "done" /\ LinkSensitive(tree)) => (TreeOK(tree) /\ PrintT(<<"TREE", ToJson(tree)>>))
 EmitTree == (phase = "done") => (TreeOK(tree) /\ PrintT(<<"TREE", ToJson(tree)>>))
